@@ -17,21 +17,21 @@ type scopeVar struct {
 }
 
 type Scope struct {
-	vc     *VC
-	pkg    *types.Package
-	vars   map[string]scopeVar // parameters (entry values), results, bound variables
-	st     *State              // current state
-	old    *State              // state for old(); nil = same as st
-	pre    *State              // loop-entry state for pre()
-	frame  *Frame              // for resolving local cells (loop invariants, asserts); may be nil
-	freeFrame *Frame           // closure frame whose captured variables are visible by name
-	inOld  bool
-	heapAbs map[string]Term // define bodies: heap name -> bound variable
-	heapUse map[string]Sort // records heaps read (define analysis)
-	bound  []string
-	qvars  map[string]bool
-	limited map[string]bool // spec functions whose calls denote the limited (non-unfolding) synonym
-	paramsFirst bool // postconditions: parameter names denote entry values, other locals their final content
+	vc          *VC
+	pkg         *types.Package
+	vars        map[string]scopeVar // parameters (entry values), results, bound variables
+	st          *State              // current state
+	old         *State              // state for old(); nil = same as st
+	pre         *State              // loop-entry state for pre()
+	frame       *Frame              // for resolving local cells (loop invariants, asserts); may be nil
+	freeFrame   *Frame              // closure frame whose captured variables are visible by name
+	inOld       bool
+	heapAbs     map[string]Term // define bodies: heap name -> bound variable
+	heapUse     map[string]Sort // records heaps read (define analysis)
+	bound       []string
+	qvars       map[string]bool
+	limited     map[string]bool // spec functions whose calls denote the limited (non-unfolding) synonym
+	paramsFirst bool            // postconditions: parameter names denote entry values, other locals their final content
 }
 
 type specError struct{ msg string }
